@@ -78,7 +78,7 @@ def machine_shard(cfg_idx: int, seed: int, examples: int, steps: int, known: lis
             shared["apps"] = {}
             for kind in ("mem", "sqlite"):
                 # min_size_to_cache=8: string arguments are externalised (reference keys), ints stay inline
-                app = apps.make_app(kind, min_size_to_cache=8)
+                app = apps.make_app(kind, min_size_to_cache=8, auto_final_invocation_purge_hours=0.0)
                 opts: dict[str, Any] = dict(registration_concurrency=CC[mode], on_diff_non_key_args_raise=raise_opt)
                 if keys:
                     opts["key_arguments"] = keys
@@ -153,7 +153,7 @@ def machine_shard(cfg_idx: int, seed: int, examples: int, steps: int, known: lis
                     if after != before:
                         rep.fail(f"machine:{kind}:{tag}:reuse-created-something", f"reusing submission changed (invocations, queue) {before} -> {after}")
                 else:
-                    known_ids = {m["ids"][kind] for m in self.invs}
+                    known_ids = {m["ids"][kind] for m in self.invs if m["status"] != "PURGED"}
                     if inv.invocation_id in known_ids:
                         rep.fail(f"machine:{kind}:{tag}:not-a-new-invocation", f"submission {a} (key {key}) returned existing {inv.invocation_id[:8]} although no REGISTERED invocation has that key")
                     if after != (before[0] + 1, before[1] + 1):
@@ -184,12 +184,27 @@ def machine_shard(cfg_idx: int, seed: int, examples: int, steps: int, known: lis
                 self.left_keys.add(key_of(mode, keys, self.invs[j]["args"]))
             self._invariant()
 
+        @precondition(lambda self: any(m["status"] in ("SUCCESS", "FAILED") for m in self.invs))
+        @rule()
+        def auto_purge(self):
+            # the purge period is 0 h: every final invocation is due; purging one must not disturb the index of the others
+            self._t("auto_purge")
+            for kind, (app, _) in self.apps.items():
+                app.orchestrator.auto_purge()
+            for m in self.invs:
+                if m["status"] in ("SUCCESS", "FAILED"):
+                    m["status"] = "PURGED"
+            self.flags.add("auto_purged")
+            self._invariant()
+
         def _invariant(self):
             if mode == "DISABLED":
                 return
             for kind, (app, _) in self.apps.items():
                 per_key: dict[Any, int] = {}
                 for m in self.invs:
+                    if m["status"] == "PURGED":
+                        continue
                     st_ = app.orchestrator.get_invocation_status(m["ids"][kind]).name
                     if st_ != m["status"]:
                         rep.fail(f"machine:{kind}:{tag}:status-mismatch", f"{m} has status {st_}")
